@@ -540,7 +540,9 @@ impl<'a, F: Family> Cx<'a, F> {
                     } else if op.c % 2 == 0 {
                         Handle::Str(Arc::from(&s2[..]))
                     } else {
-                        let owned = String::from(&s2[..]);
+                        // "every capacity >= length": sometimes the source String has spare room
+                        let mut owned = String::with_capacity(s2.len() + if op.c % 4 == 3 { 9 } else { 0 });
+                        owned.push_str(&s2);
                         Handle::Str(Arc::from(owned))
                     }
                 });
@@ -687,6 +689,65 @@ impl<'a, F: Family> Cx<'a, F> {
                 Done(Exp::default())
             }
         }
+    }
+
+    /// `Clone::clone_from`: the destination handle gives up its old allocation (possibly as its
+    /// last owner, possibly with a destructor that panics) and becomes one more owner of the
+    /// source's. Whatever order an implementation works in, and whether or not the release
+    /// unwinds, afterwards the destination is a valid owner of the source's allocation.
+    fn o_clone_from(&mut self, op: &Op) -> Outcome {
+        let (dst, src) = (op.a, op.b);
+        if self.par || dst == src || !self.has(dst) || !self.has(src) {
+            return Skipped;
+        }
+        let (ai_old, ai_new) = (self.ai(dst), self.ai(src));
+        if ai_old == NOAI || ai_new == NOAI || self.env.m(|m| m.allocs[ai_old].uninit || m.allocs[ai_new].uninit) {
+            return Skipped;
+        }
+        let kd = self.slots[dst as usize - self.base].as_ref().unwrap().h.kind();
+        let ks = self.slots[src as usize - self.base].as_ref().unwrap().h.kind();
+        let ok = matches!(
+            (kd, ks),
+            (Kind::ArcP, Kind::ArcP) | (Kind::OffP, Kind::OffP) | (Kind::Thin, Kind::Thin) | (Kind::Hs, Kind::Hs) | (Kind::Sl, Kind::Sl) | (Kind::UnionP | Kind::UnionQ, Kind::UnionP | Kind::UnionQ)
+        );
+        if !ok {
+            return Skipped;
+        }
+        let what = op.text();
+        let Slot { h: mut hd, ai: _ } = self.take(dst);
+        let mut exp = Exp::default();
+        self.add_owner(ai_new, &mut exp);
+        self.release(ai_old, &mut exp);
+        let prev = set_drop_ctx(true);
+        let r = {
+            let hs = &self.slots[src as usize - self.base].as_ref().unwrap().h;
+            guarded(|| match (&mut hd, hs) {
+                (Handle::ArcP(d), Handle::ArcP(s)) => d.clone_from(s),
+                (Handle::OffP(d), Handle::OffP(s)) => d.clone_from(s),
+                (Handle::Thin(d), Handle::Thin(s)) => d.clone_from(s),
+                (Handle::Hs(d), Handle::Hs(s)) => d.clone_from(s),
+                (Handle::Sl(d), Handle::Sl(s)) => d.clone_from(s),
+                (Handle::UnionP(d) | Handle::UnionQ(d), Handle::UnionP(s) | Handle::UnionQ(s)) => d.clone_from(s),
+                _ => unreachable!(),
+            })
+        };
+        set_drop_ctx(prev);
+        // a union takes over the variant of its source
+        let hd = match (hd, ks) {
+            (Handle::UnionP(u), Kind::UnionQ) => Handle::UnionQ(u),
+            (Handle::UnionQ(u), Kind::UnionP) => Handle::UnionP(u),
+            (h, _) => h,
+        };
+        if let Err(p) = r {
+            if !matches!(is_injected(&p), Some((Cb::Drop, _))) {
+                violation("unexpected-panic", format!("`{}` panicked: {}", what, panic_msg(&p)));
+            }
+            drop(p);
+        }
+        self.put(dst, Slot { h: hd, ai: ai_new });
+        self.touched.push(dst);
+        self.touched.push(src);
+        Done(exp)
     }
 
     /// Clone (or just read) through a handle that all threads of the parallel section share by
@@ -1294,6 +1355,7 @@ pub fn dispatch<F: Family>(cx: &mut Cx<'_, F>, op: &Op) -> Outcome {
         HugeNew => cx.c_huge(op),
         Clone | BorrowCloneArc | OffCloneArc | WithArcClone | SwapLoadFull => cx.o_clone(op),
         CloneShared | ReadShared => cx.o_shared(op),
+        CloneFrom => cx.o_clone_from(op),
         ToOffset | FromOffset | IntoRaw | FromRaw | FromRawAsDyn | UnsizeDyn | ToUnion | ToUnionCross | Erase | Unerase | IntoThin | FromThin
         | ProtFromThin | ProtIntoThin | Shareable | SwapWrap | SwapUnwrap | RefCntTrip => cx.o_convert(op),
         MoveSlot => cx.o_move(op),
